@@ -143,20 +143,20 @@ PROPS = {
         "rules": [("DP", 8, has("unsmoothed_wmc", "evaluate")), ("CP", 8, has("fold", "bdd_fold_h", "BddPtr::low", "BddPtr::high")),
                   ("MS", 13, None), ("FS", 6, has("fold", "wmc", "assignment_weight", "bb_ub", "marginal_map")),
                   ("SH", 3, has("SH5")), ("LAW", 55, None), ("LT", 1, has("WmcParams")),
-                  ("SP", 10, has("SP1")), ("NB", 33, None), ("WT", 5, hasnot("from_litvec"))],
+                  ("SP", 10, has("SP1")), ("NB", 33, None), ("WT", 5, hasnot("from_litvec")), ("IC", 1, has("repr::wmc::"))],
         "explanation": "The generic count is the homomorphism Or->+, And->*, True->1, False->0, Lit->weight by polarity, and "
                        "evaluate encodes an assignment as (low=!b, high=b) (DP); the folds hand effective children to the "
                        "callback/recursion (CP on BddPtr::fold, bdd_fold_h, SddPtr::fold); the dual-polarity memo is written and "
                        "read in the slot of the pointer's own polarity (MS); accumulators are seeded with the semiring "
-                       "identities (FS). Not decided: the numeric identity itself, order/vtree independence. Added: WmcParams.var_to_val, a table indexed by label, is only grown by push and updated through index_mut (LT). Added: WT — the weight table is filled and read entry-for-entry: WmcParams::new stores each key's own value, set_weight(l, low, high) stores (low, high) at l and pads with None exactly while the index is out of range, var_weight reads its label's entry, assignment_weight takes .1 for a true and .0 for a false literal of the literal's own label.",
+                       "identities (FS). Not decided: the numeric identity itself, order/vtree independence. Added: WmcParams.var_to_val, a table indexed by label, is only grown by push and updated through index_mut (LT). Added: WT — the weight table is filled and read entry-for-entry: WmcParams::new stores each key's own value, set_weight(l, low, high) stores (low, high) at l and pads with None exactly while the index is out of range, var_weight reads its label's entry, assignment_weight takes .1 for a true and .0 for a false literal of the literal's own label. Added: IC — the weight table, indexed by label, is sized by a label bound (largest label + 1), not by the number of entries of the map it is built from (defect D10, repaired).",
     },
     "C08": {
         "level": "other",
-        "rules": [("SL", 7, None), ("CP", 2, has("smooth_helper")), ("VO", 3, has("var_at_level", "new_last")), ("LAW", 55, None)],
+        "rules": [("SL", 7, None), ("CP", 2, has("smooth_helper")), ("VO", 3, has("var_at_level", "new_last")), ("LAW", 55, None), ("IC", 1, has("repr::wmc::"))],
         "explanation": "Level bookkeeping of smooth_helper: every node built is labelled with var_at_level(current) or with a "
                        "node variable that a dominating test equates with it, children recurse one level down, smooth starts "
                        "at level 0 (SL); the complemented arm is sign-coherent (CP); callers count on smooth(_, num_vars) "
-                       "(SL2). Not decided: equality of the count with the brute-force sum.",
+                       "(SL2). Not decided: equality of the count with the brute-force sum. Added: IC — the weight table, indexed by label, is sized by a label bound (largest label + 1), not by the number of entries of the map it is built from (defect D10, repaired).",
     },
     "C10": {
         "level": "proof",
